@@ -958,6 +958,34 @@ func decideC18(c *vh.Case, spec c18Spec, w *c18World) {
 	}
 	w.mu.Lock()
 	defer w.mu.Unlock()
+	// An acknowledgement can be slow (a lingering response in front of it). One that arrives when every Subscribe
+	// of its URI has since been ended by a completed Unsubscribe belongs to a listen that is gone: it establishes nothing.
+	for _, rt := range w.sess {
+		for uri, evs := range rt.subEvents {
+			open := 0
+			var out []c18SubEv
+			for _, ev := range evs {
+				switch ev.what {
+				case "sub-called":
+					open++
+				case "error", "rejected":
+					if open > 0 {
+						open--
+					}
+				case "unsub-returned":
+					open = 0
+				case "sub-effective":
+					if open == 0 {
+						c.Count("stale_acknowledgements", 1)
+						continue
+					}
+					open--
+				}
+				out = append(out, ev)
+			}
+			rt.subEvents[uri] = out
+		}
+	}
 	endT := int64(spec.EndAt) * 1000
 	nontrivial := false
 	aliveThrough := func(rt *c18SessRT, t int64) bool { return rt.closeT < 0 || rt.closeT > t+100_000 }
